@@ -144,7 +144,10 @@ def alias(eng, env):
     eng.state.ghost["tasks_added"] = 0
 
 
-REQ_INV = [("close-when-flushed-means-queue-dropped", "implies(self.close_when_flushed, len(self.requests) == 0)")]
+REQ_INV = [("close-when-flushed-means-queue-dropped", "implies(self.close_when_flushed, len(self.requests) == 0)"),
+           # the 100-continue latch is per request: it is only ever set for the request being read and is cleared when that request completes,
+           # so a later expecting request on the same connection gets its own interim response
+           ("C19-latch-belongs-to-the-request-being-read", "implies(self.sent_continue, self.request is not None)")]
 # established by received()'s loop invariant on every normal exit; on an exceptional exit (OSError out of send_continue) the channel is
 # torn down by wasyncore's handle_error, so the fact is only ASSUMED when the lock is acquired (listed in the evidence)
 REQ_ASSUMED = [("C19-pending-request-is-not-completed", "implies(self.request is not None, not self.request.completed)")]
@@ -210,7 +213,15 @@ def install(reg):
                  ("no-teardown-no-change", "implies(self.connected == old(self.connected), self.total_outbufs_len == old(self.total_outbufs_len) or (not self.connected and self.total_outbufs_len == 0 and result == 0))")],
         ensures_exc=[("raise-has-no-side-effect", "self.connected == old(self.connected) and self.total_outbufs_len == old(self.total_outbufs_len)")],
         modifies=["self.connected", "self.total_outbufs_len"], cls=CH, check_invariant=False))
-    reg.add(FuncContract(CH + ".handle_close", ensures=[("disconnected", "not self.connected"), ("zero", "self.total_outbufs_len == 0")],
+    # teardown on the I/O thread: under outbuf_lock it drops the backlog, clears `connected` and wakes a producer that is paused on the
+    # watermark (whatever the backlog was: a paused producer must always learn that the client is gone); then the descriptor is closed
+    reg.add(FuncContract("wasyncore.dispatcher.close", raises=["OSError"], modifies=[], cls=CH, check_invariant=False))
+    reg.add(FuncContract(CH + ".handle_close", requires=[("io", "role_is('IO')")], raises=["OSError"], setup=alias,
+        ensures=[("disconnected", "not self.connected"), ("zero", "self.total_outbufs_len == 0"),
+                 ("W5-close-wakes-a-paused-producer", "notified('outbuf_lock')")],
+        ensures_exc=[("disconnected", "not self.connected"), ("zero", "self.total_outbufs_len == 0"),
+                     ("W5-close-wakes-a-paused-producer", "notified('outbuf_lock')")],
+        loops={0: LoopSpec(invariants=[("lock", "holds('outbuf_lock')")] + OUT_INV)},
         modifies=["self.connected", "self.total_outbufs_len"], check_invariant=False))
 
     reg.add(FuncContract(CH + "._flush_some", params={"do_close": Bool}, returns=Bool, requires=[R4, R3], raises=["OSError"], setup=alias,
@@ -306,12 +317,14 @@ def install_service(reg):
         ensures=[("C09-request-popped-or-connection-closing", "popped() or self.close_when_flushed"),
                  ("C05-W2-io-woken-after-service", "implies(self.connected, pulled())")],
         ensures_exc=[("C09-request-popped-or-connection-closing", "popped() or self.close_when_flushed")],
-        loops={0: LoopSpec(invariants=[("lock", "holds('requests_lock')"), ("flag", "self.close_when_flushed")])}))
+        loops={0: LoopSpec(invariants=[("lock", "holds('requests_lock')"),
+                                       ("C11-close-decision-published-before-the-queue-is-dropped", "self.close_when_flushed")])}))
     reg.add(FuncContract(CH + ".received", params={"data": Bytes}, returns=Bool, raises=["OSError"], setup=alias,
         requires=[("io", "role_is('IO')")],
         loops={0: LoopSpec(invariants=[("lock", "holds('requests_lock')"),
                                        ("C11-no-close-decision-while-parsing", "not self.close_when_flushed and not self.will_close"),
-                                       ("C19-no-completed-request-left-pending", "implies(self.request is not None, not self.request.completed)")] + OUT_INV,
+                                       ("C19-no-completed-request-left-pending", "implies(self.request is not None, not self.request.completed)"),
+                                       REQ_INV[1]] + OUT_INV,
                            modifies=["self.total_outbufs_len", "self.connected", "self.last_activity", "self.outbufs", "self.current_outbuf_count"])}))
 
 
